@@ -3,15 +3,15 @@ import sys
 
 import vlib
 
-# The recorded witness of the known finding (also in known_findings.json and, as a `decide`d theorem,
-# in lean/TrustVerif/Props/C04.lean: c04_tp_counterexample).
+# The recorded witness of the repaired finding C04-tp-retrigger (fixed in /repo by b46c61d; see
+# known_findings.json and theorem c04_tp_witness in lean/TrustVerif/Props/C04.lean), kept as a regression case.
 TP_WITNESS_PT = 10
 TP_WITNESS = [(1, 0), (0, 4), (1, 4), (1, 4), (1, 4), (1, 4)]  # (IN, dt)
 
 
 def iec_tp(trace, pt):
     """IEC 61131-3 TP (non-retriggerable) on a sampled trace [(IN, dt)], time between two calls
-    attributed to the later call.  Independent Python oracle used only to classify the witness."""
+    attributed to the later call.  Independent Python oracle evaluated on the implementation's answers to the witness."""
     pt = max(pt, 0)
     running, acc, prev, outs = False, 0, 0, []
     for inp, dt in trace:
@@ -28,12 +28,11 @@ def iec_tp(trace, pt):
 
 
 def extra(ctx):
-    """Replays the recorded witness of the known finding on the implementation's answers (the harness
-    always emits it as cases `w-tp-struct` = pub struct, `w-tp-program` = ST program) and classifies it."""
+    """Oracle on the implementation for the recorded witness of the repaired finding C04-tp-retrigger: the
+    harness always replays it on the real code (cases `w-tp-struct` = pub struct, `w-tp-program` = ST
+    program); any answer other than the IEC non-retriggerable pulse is a failing input of the property."""
     res = {"known": [], "oracle_failures": [], "failures": [], "coverage": {}}
     expected = iec_tp(TP_WITNESS, TP_WITNESS_PT)
-    findings = {f["id"]: f for f in vlib.known_findings("C04")}
-    known = findings.get("C04-tp-retrigger")
     seen = 0
     for c in ctx["cases"]:
         if "witness" not in c.tags:
@@ -42,28 +41,19 @@ def extra(ctx):
         route = "struct" if "tp-retrigger-struct" in c.tags else "program"
         got = [impl for (_op, impl) in c.ops]
         if got == expected:
-            # the defect is gone: the harness then selects the patched TP model (tpStepFixed), for which the
-            # full theorems c04_tp_fixed_trace / c04_tp_fixed_exec_trace are proved
-            res["coverage"]["tp_witness_" + route] = (
-                "IEC answer: finding C04-tp-retrigger no longer reproduces; TP compared against the patched model "
-                "(full theorem c04_tp_fixed_trace)")
+            res["coverage"]["tp_witness_" + route] = "IEC answer " + " ".join(got)
             continue
-        first = next(i for i, (g, e) in enumerate(zip(got, expected)) if g != e)
-        sig = "tp-retrigger:call%d:%s!=%s" % (first + 1, got[first], expected[first])
+        first = next((i for i, (g, e) in enumerate(zip(got, expected)) if g != e), min(len(got), len(expected)))
+        sig = "tp-retrigger:call%d:%s!=%s" % (first + 1, (got + ["<missing>"])[first], (expected + ["<none>"])[first])
         res["coverage"]["tp_witness_" + route] = sig
-        if known and sig == known.get("match"):
-            res["known"].append(
-                "%s [%s route] TP restarts on a rising edge of IN inside a running pulse: PT=10, (IN,dt)=%s -> call %d "
-                "answers %s, IEC (non-retriggerable) demands %s"
-                % (known["id"], route, TP_WITNESS, first + 1, got[first], expected[first]))
-        else:
-            res["oracle_failures"].append({
-                "what": "TP deviates from the IEC non-retriggerable pulse on the recorded witness in a way not listed "
-                        "in known_findings.json",
-                "route": route, "pt": TP_WITNESS_PT, "trace_in_dt": TP_WITNESS,
-                "implementation": got, "iec": expected, "signature": sig,
-                "case": c.n, "case_lines": c.lines, "seed": ctx["seed"], "tier": ctx["tier"],
-            })
+        res["oracle_failures"].append({
+            "what": "TP deviates from the IEC non-retriggerable pulse on the recorded witness of finding "
+                    "C04-tp-retrigger (a rising edge of IN inside a running pulse must be ignored): regression of "
+                    "/repo commit b46c61d or a new defect",
+            "route": route, "pt": TP_WITNESS_PT, "trace_in_dt": TP_WITNESS,
+            "implementation": got, "iec": expected, "signature": sig,
+            "case": c.n, "case_lines": c.lines, "seed": ctx["seed"], "tier": ctx["tier"],
+        })
     if seen != 2:
         res["failures"].append("the harness did not emit the two witness cases of C04-tp-retrigger")
     return res
@@ -201,11 +191,10 @@ MANIFEST = {
                   "overflow under a monotone non-negative clock, counters stay in range for all eight integer kinds "
                   "(saturate, never wrap), edge detectors never fire on two consecutive calls and fire iff there is an edge, "
                   "SR/RS dominance, instance independence (a call changes only the addressed instance; after any "
-                  "interleaving every instance holds what its own sub-trace alone produces). TP is proved only under the "
-                  "guard 'no rising edge of IN while a pulse is running' (c04_tp_trace_partial, c04_tp_exec_trace_partial, "
-                  "c04_tp_et_monotone_partial): there the code restarts the pulse (c04_tp_counterexample, "
-                  "c04_tp_exec_counterexample, c04_tp_et_decreases_counterexample; known finding C04-tp-retrigger, replayed "
-                  "on the real code through the pub struct and through an ST program on every run).",
+                  "interleaving every instance holds what its own sub-trace alone produces). TP (c04_tp_trace, "
+                  "c04_tp_exec_trace, c04_tp_et_monotone) is the IEC non-retriggerable pulse on every trace since the "
+                  "repair of finding C04-tp-retrigger (/repo b46c61d); its witness (c04_tp_witness) is replayed on the real "
+                  "code through the pub struct and through an ST program on every run, and any deviation is a violation.",
     "level_note": "Trusted: Lean kernel + propext/Quot.sound/Classical.choice; the hand-written model (validated only by the "
                   "differential run: ~175k FB calls per quick run, 5.3M per thorough run, through the pub structs, "
                   "execute_builtin and generated ST programs incl. nested wrapper FBs); my reading of IEC 61131-3 in Spec. "
